@@ -109,6 +109,22 @@ impl Property for C11 {
         Local { children: vec![], root }
     }
     fn check(&self, c: &Case, local: &mut Local, obs: &mut Obs) -> Verdict {
+        let v = self.check_strict(c, local, obs);
+        // Thorough tier only (see C08): an unclassified shape of the known hash-order nondeterminism families is
+        // tolerated under one family signature so that long runs keep searching; the quick tier stays strict.
+        if let Verdict::Fail(f) = &v {
+            let thorough = std::env::var("VERIF_TIER_EFFECTIVE").map(|t| t == "thorough").unwrap_or(false);
+            let open = crate::gens::history::open_sigs("C11");
+            if thorough && f.sig.starts_with("nondet:") && !open.contains(&f.sig) {
+                return Verdict::fail("family:nondet-unclassified-shape", format!("[unclassified shape {}] {}", f.sig, f.msg));
+            }
+        }
+        v
+    }
+}
+
+impl C11 {
+    fn check_strict(&self, c: &Case, local: &mut Local, obs: &mut Obs) -> Verdict {
         if c.mode == 1 {
             // worker side: just hand back the dump
             return match catch(|| analyse(c)) {
